@@ -260,13 +260,42 @@ def find_elgamal(bits, idx):
     return p, g
 
 
-def build_keys(acc, quick):
-    """-> ordered dict name -> kd (simplest first inside each type)"""
+def search_worker(job):
+    """one deterministic search per shard; the descriptors found travel back through the accumulator"""
+    import json
+    from ..common import Acc, jsonable
+    acc = Acc()
+    if job[0] == "rsa":
+        found = [find_rsa_small("rsa512-e3-shortcrt", 512, 3, _want_short_crt)]
+    else:
+        found = ecc_keys(job[1])
+    for kd in found:
+        acc.seen("found", json.dumps(jsonable(kd), sort_keys=True))
+    return acc
+
+
+def build_keys(acc, quick, pmap=None):
+    """-> ordered dict name -> kd (simplest first inside each type); pmap: optional ctx.pmap for the searches"""
+    import json
+    from ..common import Acc, unjson
     from ..keys import rsa_components, dsa_components
     keys = {}
 
     def add(kd):
         keys[kd["name"]] = kd
+
+    jobs = [("rsa",)] + [("ecc", c) for c in CURVES]
+    if pmap is not None:
+        pmap(search_worker, jobs)
+        src = acc
+    else:
+        src = Acc()
+        for j in jobs:
+            src.merge(search_worker(j))
+    found = {}
+    for sj in src.distinct.pop("found", ()):
+        kd = unjson(json.loads(sj))
+        found[kd["name"]] = kd
 
     # ---- RSA -------------------------------------------------------------------
     fx = [(1024, 65537), (1024, 3), (1024, 2 ** 32 + 15), (1025, 3), (1025, 65537)]
@@ -277,7 +306,7 @@ def build_keys(acc, quick):
         p, q = c["p"], c["q"]
         add({"t": "RSA", "name": "rsa%d-e%s" % (bits, e if e < 10 ** 6 else "2^32+15"), "n": c["n"], "e": c["e"], "d": c["d"],
              "p": p, "q": q})
-    add(find_rsa_small("rsa512-e3-shortcrt", 512, 3, _want_short_crt))
+    add(found["rsa512-e3-shortcrt"])
     add(find_rsa_small("rsa521-e65537", 521, 65537, lambda kd, x: True))
     # ---- DSA -------------------------------------------------------------------
     doms = [(1024, 160), (2048, 224), (3072, 256)]
@@ -291,8 +320,9 @@ def build_keys(acc, quick):
     add(find_dsa_x(d1, "dsa1024-xtop-yhi", d1["q"] - 2, -1, lambda x, y: _top(y, 128) >= 0x80))
     # ---- ECC -------------------------------------------------------------------
     for curve in CURVES:
-        for kd in ecc_keys(curve):
-            add(kd)
+        for sfx in {"w": ("-x00", "-y00", "-seeded"), "e": ("-y00-xodd", "-yhi-xeven", "-seeded"), "m": ("-u00", "-unclamped", "-seeded")}[
+                "w" if curve in WEIER else "e" if curve in EDW else "m"]:
+            add(found[curve + sfx])
     # ---- self-consistency of the inputs (reference side) -------------------------
     for kd in keys.values():
         if kd["t"] == "RSA":
